@@ -1020,6 +1020,43 @@ func c11ReloadableInKey(w *World, r *Report, ci *types.Named) {
 		sort.Strings(ws)
 		r.Ob(ri, w.FnName(fn)+"|covers-reloadable-state", fn.Pos(), reads,
 			fmt.Sprintf("Hash() reads none of the fields the reload replaces (%s): a cache key built from it does not change when the state is reloaded, so results produced with the old state keep being served", strings.Join(ws, ", ")))
+		// ... and returns nothing that survives a reload: a result taken from a field of the object
+		// that methods outside the reload path store (a memoised digest) and that the reload does not
+		// replace is the digest of the *previous* state
+		stale := ""
+		storedOutsideReload := map[string]bool{}
+		for _, g := range w.Funcs {
+			if g.Signature.Recv() == nil || derefNamed(g.Signature.Recv().Type()) != t || w.isMockFn(g) {
+				continue
+			}
+			if _, onReload := reach[g]; onReload {
+				continue
+			}
+			eachInstr(g, func(in ssa.Instruction) {
+				if st, ok := in.(*ssa.Store); ok {
+					if fa, ok := st.Addr.(*ssa.FieldAddr); ok && derefNamed(fa.X.Type()) == t {
+						if f := fieldOf(fa.X.Type(), fa.Field); f != nil && !isMutexType(f.Type()) && !written[f.Name()] {
+							storedOutsideReload[f.Name()] = true
+						}
+					}
+				}
+			})
+		}
+		for _, ret := range returnsOf(fn) {
+			for _, rv := range ret.Results {
+				dependsOn(w, rv, func(x ssa.Value) bool {
+					if fa, ok := x.(*ssa.FieldAddr); ok && derefNamed(fa.X.Type()) == t {
+						if f := fieldOf(fa.X.Type(), fa.Field); f != nil && storedOutsideReload[f.Name()] {
+							stale = f.Name()
+							return true
+						}
+					}
+					return false
+				})
+			}
+		}
+		r.Ob(ri, w.FnName(fn)+"|no-result-surviving-reload", fn.Pos(), stale == "",
+			fmt.Sprintf("Hash() returns a value taken from the field %s, which methods outside the reload path store and the reload does not replace (a memoised digest): after a reload the cache key is still the one of the previous state, so results produced with the old state keep being served", stale))
 		// ... and among them the one that identifies the key in the product: what a reader method
 		// writes into the token's "kid" header must reach the digest of Hash() (a rotation that keeps
 		// the algorithm changes nothing else)
